@@ -142,15 +142,17 @@ PROPS = {
         "assumptions": [],
     },
     "C15": {
-        "statement": "Async.accessor_quiescent / dispatch_quiescent / running_true_while_open / running_false_only_done / no_overtake / tl_only_in_wait / wait_runs_tl / each_once / each_at_most_once over every run (all interleavings of caller steps and background-job steps) of the transition system of Model/Async.lean; acceptsLog_sound transfers them to every merged log the driver accepts",
-        "engines": [{"engine": "asyncd", "args": {}, "quick": {"cases": 600}, "thorough": {"cases": 30000},
-                     "search": {"cases": 6000}}],
+        "statement": "Async.accessor_quiescent / dispatch_quiescent / running_true_while_open / running_false_only_done / no_overtake / tl_only_in_wait / wait_runs_tl / each_once / each_at_most_once / quiet_quiescent / quiet_stutters / blocked_only_while_running over every run (all interleavings of caller steps — every public method incl. res / mut_res, in every order —, background-job steps and the environment's look at the systems' own completion signal) of the transition system of Model/Async.lean; acceptsLog_sound transfers them to every merged log the driver accepts",
+        # hist = n: every sequence of n steps (entry point x {idle, held, queued, settled}); 36^n cases
+        "engines": [{"engine": "asyncd", "args": {}, "quick": {"cases": 600, "hist": 2}, "thorough": {"cases": 20000, "hist": 3},
+                     "search": {"cases": 6000, "hist": 2}}],
         "aspects": ["*"],
         "assumptions": [
             "std::sync::mpsc: recv returns only after send; try_recv never invents a message (modelled as a one-slot mailbox, not verified)",
             "rayon ThreadPool::spawn runs the closure once on a pool thread; a panic inside it aborts the process (outside the model)",
             "the job's stage loop produces exactly the traces of the stages task of the model's layout (C01-C04 correspondence)",
             "one SeqCst-ordered log: F is logged before the first borrow and D after the last release, ret after the call returned",
+            "a call is reported as stuck (MODEL:async-progress) only after the calling thread has been seen parked inside it at every sample over 5 s while no system is inside run, nothing is held by the harness and every pool worker is parked (Linux /proc thread states; without them no such report is made)",
         ],
     },
     "C16": {
